@@ -292,9 +292,10 @@ def parse_answer(res, dim):
 
 
 class Fail(Exception):
-    def __init__(self, step, what, cls="answer"):
+    def __init__(self, step, what, cls="answer", extra=None, missing=None):
         Exception.__init__(self, what)
         self.step, self.what, self.cls = step, what, cls
+        self.extra, self.missing = extra, missing
 
 
 def oracle(script, out):
@@ -395,12 +396,11 @@ def oracle(script, out):
             ln = int(st[1].split("=")[1])
             lst = parse_pts(st[2:], dim)
             n = sum(M.values())
-            if sz != n:
-                raise Fail(i, "size() is %d but %d elements should be held" % (sz, n), "size")
-            if ln != len(lst) or collections.Counter(lst) != M:
-                miss = sorted((M - collections.Counter(lst)).elements())[:3]
-                extra = sorted((collections.Counter(lst) - M).elements())[:3]
-                raise Fail(i, "list() differs from the multiset held (missing %s, unexpected %s)" % (miss, extra), "list")
+            extra = collections.Counter(lst) - M
+            miss = M - collections.Counter(lst)
+            if sz != n or ln != len(lst) or extra or miss:
+                raise Fail(i, "size() is %d and list() has %d elements but %d should be held (missing %s, unexpected %s)"
+                           % (sz, len(lst), n, sorted(miss.elements())[:3], sorted(extra.elements())[:3]), "contents", extra, miss)
             if gn:
                 g, root = parse_dump(parts[2], dim)
                 if int(g["draws"]) < 0:
@@ -419,6 +419,7 @@ def oracle(script, out):
                     raise Fail(i, "no tree although %d elements should be held" % n, "dump")
     except Fail as f:
         res["fail"] = (f.step, f.what, f.cls)
+        res["extra"], res["missing"] = f.extra, f.missing
     except (AssertionError, ValueError, IndexError) as e:
         res["fail"] = (-1, "unparsable harness output: %r" % (e,), "protocol")
     return res
@@ -498,13 +499,46 @@ def evaluate(ck, hbin, script):
     return out, res
 
 
-def classify(script, res):
-    """violation record; `class` separates the known stale-address mechanism (F16) from anything else."""
+def classify(script, out, res):
+    """violation record; `class` separates the known stale-address mechanism (F16) from anything else.
+    F16 is recognised purely from observations:
+      (a) a dump at or before the failing step shows an address in removed_ that belongs to no tree
+          element (`stale>0`), or
+      (b) the failing op is add/addv, the only discrepancy is that elements reappear which the dump
+          before the op showed as marked-removed leaf elements, and that dump has a marked-removed
+          element in a leaf that is full (len(data_) >= leaf+1 = its reserved capacity; for addv: any
+          marked-removed leaf element, since leaves fill up during the bulk insertion) -- the push_back
+          reallocates the buffer, removed_ keeps the old addresses, and the rebuild that may follow
+          inside the same add() lists the element again;
+    and always only for parameterisations in which a leaf can outgrow its buffer (`realloc_prone`)."""
     kv = parse_header(script[0])
     step, what, cls = res["fail"]
     rec = {"engine": ENGINE, "kind": kv["kind"], "metric": kv["metric"], "what": what, "class": cls}
-    if res["stale_at"] is not None and (step < 0 or res["stale_at"] <= step) and realloc_prone(kv) and cls != "crash":
+    if not realloc_prone(kv) or cls == "crash":
+        return rec
+    if res["stale_at"] is not None and (step < 0 or res["stale_at"] <= step):
         rec["class"] = "gnat-stale-removed-address"
+        return rec
+    if cls == "contents" and step >= 1 and res.get("extra") and not res.get("missing"):
+        op = script[1 + step].split()[0]
+        if op in ("add", "addv"):
+            dim = METRICS[kv["metric"]][0]
+            try:
+                _g, root = parse_dump(out[step - 1].split(" | ")[2], dim)
+            except Exception:
+                return rec
+            marked = collections.Counter()
+            full = False
+            stack = [root] if root is not None else []
+            while stack:
+                n = stack.pop()
+                rm_here = [x for x, rm in n.data if rm]
+                marked.update(rm_here)
+                if rm_here and (op == "addv" or len(n.data) >= int(kv["leaf"]) + 1):
+                    full = True
+                stack += n.children
+            if full and not (res["extra"] - marked):
+                rec["class"] = "gnat-stale-removed-address"
     return rec
 
 
@@ -530,18 +564,18 @@ def judge(ck, hbin, script, tag, lock):
                 ck.count("gnat:scripts-with-internal-nodes")
         ck.sample({"generator": tag, "script": script[:8] + ["…(%d more lines)" % (len(script) - 8)]})
     if res["fail"] is not None:
-        rec = classify(script, res)
+        rec = classify(script, out, res)
         want_cls = rec["class"]
 
         def still(lines):
             s = [script[0]] + lines
             o, r = evaluate(ck, hbin, s)
-            return r["fail"] is not None and classify(s, r)["class"] == want_cls
+            return r["fail"] is not None and classify(s, o, r)["class"] == want_cls
         small = [script[0]] + core.ddmin(script[1:], still, max_tests=250)
         o, r = evaluate(ck, hbin, small)
         if r["fail"] is None:
             small, o, r = script, out, res
-        rec = classify(small, r)
+        rec = classify(small, o, r)
         with lock:
             new = ck.report(rec, script=small, expected=["spec: " + r["fail"][1]], observed=o, engine=ENGINE)
             if new:
@@ -570,7 +604,7 @@ def judge(ck, hbin, script, tag, lock):
                 o3, r3 = evaluate(ck, hbin, small)
                 if r3["fail"] is None:
                     small, o3, r3 = probe, o2, r2
-                rec = classify(small, r3)
+                rec = classify(small, o3, r3)
                 new = ck.report(rec, script=small, expected=["spec: " + r3["fail"][1], "GnatInv: " + what], observed=o3, engine=ENGINE)
                 if new:
                     ck.log("GnatInv broken (%s) and a query fails: %s" % (what, r3["fail"][1]))
@@ -627,7 +661,7 @@ def run(ck):
     jobs = []
     for name, script in corpus():
         jobs.append((script, "corpus"))
-    nper = 14 if ck.tier == "quick" else 120
+    nper = 40 if ck.tier == "quick" else 400
     dnames = ["uniform", "dups", "lattice", "clusters"]
     metrics = list(METRICS)
     idx = 0
@@ -641,13 +675,10 @@ def run(ck):
             prm = gen_params(r, safe=(j % 3 != 2)) if kind.startswith("gnat") else None
             nops = r.choice([25, 60, 120])
             jobs.append((gen_script(r, kind, metric, prm, dname, nops), "random-" + dname))
-    ok_all = True
     with concurrent.futures.ThreadPoolExecutor(max_workers=8) as ex:
         futs = [ex.submit(judge, ck, hbin, s, tag, lock) for s, tag in jobs]
-        bad = 0
-        for f in futs:
-            if not f.result():
-                bad += 1
+        bad = sum(0 if f.result() else 1 for f in futs)
+    ck.extra_cov["scripts_with_findings_or_alarms"] = bad
     return 0
 
 
@@ -660,7 +691,7 @@ def replay(ck, data):
         print("%-40s impl: %s" % (ln[:40], (out[i] if i < len(out) else "<missing>")[:300]))
     rc = 0
     if res["fail"]:
-        print("PROPERTY FAILS at op %d: %s [%s]" % (res["fail"][0], res["fail"][1], classify(script, res)["class"]))
+        print("PROPERTY FAILS at op %d: %s [%s]" % (res["fail"][0], res["fail"][1], classify(script, out, res)["class"]))
         rc = 1
     if res["inv"]:
         print("GnatInv fails on the dump after op %d: %s" % (res["inv"][0], res["inv"][1]))
